@@ -85,7 +85,21 @@ func run(t *testing.T, tape *simrt.Tape) *hx.Outcome {
 	if c(3) == 0 && fcfg.FSCacheType == "" {
 		fcfg.PassThrough = true
 		fcfg.MergeBufferSize = int64([]int{cs, 4 * cs, 1 << 20}[c(3)])
+		// chunk boundaries need not be aligned to the merge buffer (own stream: older tapes replay unchanged)
+		switch tape.Draw("cfg.mbuf", 4) {
+		case 1:
+			fcfg.MergeBufferSize++
+		case 2:
+			if fcfg.MergeBufferSize > 2 {
+				fcfg.MergeBufferSize--
+			}
+		case 3:
+			fcfg.MergeBufferSize += int64(cs/2 + 1)
+		}
 		fcfg.MergeWorkerCount = 1 + c(3)
+		if tape.Draw("cfg.mwc", 6) == 0 {
+			fcfg.MergeWorkerCount = 0 // unset (library users without the toml defaults)
+		}
 	}
 	nReaders := 1 + c(3)
 	doPrefetch, doBg := c(2) == 1, c(2) == 1
@@ -442,6 +456,7 @@ func TestC02(t *testing.T) {
 		Rule: "each run draws a tar (directories incl. implicit parents, regular files with sizes around chunk boundaries, symlinks, hard links, devices, fifos, xattrs, owners, special mode bits; ./ prefix), build options (chunk 8/17/64, min-chunk-size, gzip/zstd:chunked, prioritized subset, 1-3 workers), registry chunk size, memory/directory caches with tiny LRUs, passthrough, metadata store (memory / bolt db), registry personality (calm half of the runs; otherwise transient faults, expiry, latency), then 1-3 reader tasks issue 2-11 lookups/readdirs/getattr/readlink/xattr/open+reads (offsets incl. past EOF, spans of several chunks) each while Prefetch and BackgroundFetch run; the reference is the tar re-read with archive/tar. non-trivial = at least one file read in a tar of more than 2 entries; distinct = schedule hash x configuration",
 		Run:  run,
 		HangIsViolation: true,
+		PanicIsViolation: true,
 		Components: map[string]string{"fs/layer (Resolver, layer, node)": "real (instrumented copy)", "fs/reader, fs/remote, cache, task": "real", "metadata/memory, cmd/.../db on a real bolt file": "real", "estargz builder": "real, run before the simulated part", "registry, CDN": "stub (simreg, honest bytes)", "kernel FUSE": "stub: node interfaces driven in-process; passthrough emulated with pread on the returned fd"},
 		Assumptions: []string{"duplicate tar names, ../ and absolute spellings are not generated (the reference model would have to guess the builder's normalisation)", "mtime of implicit directories is not compared"},
 	})
